@@ -30,7 +30,8 @@ func To(t time.Time) *tspb.Timestamp {
 	}
 }
 
-// From translates a protobuf Timestamp message to a Golang Time object.
+// From translates a protobuf Timestamp message to a Golang Time object. A nil message translates
+// like the zero Timestamp (the Unix epoch).
 func From(t *tspb.Timestamp) time.Time {
-	return time.Unix(t.Seconds, int64(t.Nanos))
+	return time.Unix(t.GetSeconds(), int64(t.GetNanos()))
 }
